@@ -26,15 +26,34 @@ func checkC03(c *c03Case) (msg string, nontrivial bool, labels []string) {
 	q := c.Stmt.Render()
 	c.Query = q
 	keyIdx := orderKeyIdx(c.Stmt)
-	rowStore := lib.NewStore(c.Pairs)
-	row := lib.Run(q, rowStore, len(c.Pairs), lib.Cfg{Mode: "row", Batch: c.Batch, Cache: true})
-	if row.BuildErr != nil {
-		return "", false, []string{"rejected-by-engine"}
-	}
-	if row.Panic != "" || row.StepCap {
-		return fmt.Sprintf("query %q over %v [row]: %s", q, c.Pairs, row.Describe()), false, labels
-	}
-	for _, bs := range []int{c.Batch, c.Batch2} {
+	var firstRows [][]any
+	var firstCfg lib.Cfg
+	haveFirst := false
+	for bi, bs := range []int{c.Batch, c.Batch2} {
+		if bi == 1 && c.Batch2 == c.Batch {
+			break
+		}
+		// row iteration under the same batch-size setting: statements that
+		// drive their child in chunks (DELETE, ORDER BY, aggregates) evaluate
+		// as far ahead as that setting says in either mode, so "batch completes
+		// => row completes" is a statement about one setting
+		rowStore := lib.NewStore(c.Pairs)
+		rcfg := lib.Cfg{Mode: "row", Batch: bs, Cache: true}
+		row := lib.Run(q, rowStore, len(c.Pairs), rcfg)
+		if row.BuildErr != nil {
+			return "", false, []string{"rejected-by-engine"}
+		}
+		if row.Panic != "" || row.StepCap {
+			return fmt.Sprintf("query %q over %v [%s]: %s", q, c.Pairs, rcfg, row.Describe()), false, labels
+		}
+		if row.ExecErr == nil {
+			// the rows do not depend on the setting
+			if !haveFirst {
+				firstRows, firstCfg, haveFirst = row.Rows, rcfg, true
+			} else if !sameUpToTies(firstRows, row.Rows, keyIdx) {
+				return fmt.Sprintf("query %q over %v:\n  row iteration [%s] %s\n  row iteration [%s] %s", q, c.Pairs, firstCfg, lib.ShowRows(firstRows), rcfg, lib.ShowRows(row.Rows)), false, labels
+			}
+		}
 		cfg := lib.Cfg{Mode: "batch", Batch: bs, Cache: true}
 		bStore := lib.NewStore(c.Pairs)
 		bat := lib.Run(q, bStore, len(c.Pairs), cfg)
